@@ -96,8 +96,165 @@ func (c *Ctx) selectionGuard(fi *FuncInfo, spec func(elem string, depthVar strin
 		return true
 	})
 	if n == 0 {
+		// the slice comes from a filter helper given the criterion as a function: xs, _ := t.filter(func(e) (bool, error) {...})
+		ast.Inspect(fi.Decl.Body, func(nd ast.Node) bool {
+			as, ok := nd.(*ast.AssignStmt)
+			if !ok || len(as.Rhs) != 1 || len(as.Lhs) == 0 || identObj(info, as.Lhs[0]) != passed {
+				return true
+			}
+			call, ok := unparen(as.Rhs[0]).(*ast.CallExpr)
+			if !ok || len(call.Args) != 1 {
+				return true
+			}
+			lit, ok := unparen(call.Args[0]).(*ast.FuncLit)
+			g := calleeOf(info, call)
+			if !ok || g == nil || g.Exported() || !c.isFilterHelper(g) || lit.Type.Params == nil || len(lit.Type.Params.List) != 1 || len(lit.Type.Params.List[0].Names) != 1 {
+				return true
+			}
+			n++
+			key := fmt.Sprintf("%s/selection#%d", name, n)
+			ep := info.Defs[lit.Type.Params.List[0].Names[0]]
+			elem := ep.Name()
+			depthVar := ""
+			ast.Inspect(lit.Body, func(m ast.Node) bool {
+				if s2, ok := m.(*ast.AssignStmt); ok && len(s2.Rhs) == 1 {
+					if cl, ok := unparen(s2.Rhs[0]).(*ast.CallExpr); ok && isRepoFunc(calleeOf(info, cl), "tree", "Edge", "TopoDepth") {
+						if o := identObj(info, s2.Lhs[0]); o != nil {
+							depthVar = o.Name()
+						}
+					}
+				}
+				return true
+			})
+			// the condition under which the function returns true
+			var alts []*bexpr
+			okAll := true
+			ast.Inspect(lit.Body, func(m ast.Node) bool {
+				ret, ok := m.(*ast.ReturnStmt)
+				if !ok || len(ret.Results) == 0 {
+					return true
+				}
+				if tv, ok := info.Types[ret.Results[0]]; ok && tv.Value != nil && tv.Value.String() == "false" {
+					return true
+				}
+				conds, okc := c.pathConds(info, lit.Body, ret, false)
+				if !okc {
+					okAll = false
+					return true
+				}
+				var rel []cond
+				for _, cd := range conds {
+					if cd.Expr != nil && errGuard(info, cd.Expr) {
+						continue
+					}
+					rel = append(rel, cd)
+				}
+				alts = append(alts, bAnd(c.condsToBexpr(info, rel, nil), c.toBexpr(info, ret.Results[0], nil)))
+				return true
+			})
+			sp := spec(elem, depthVar)
+			if !okAll || len(alts) == 0 || sp == nil {
+				c.Undecided("GF", key, as.Pos(), "criterion function not understood")
+				return true
+			}
+			code := bOr(alts...)
+			ok2, wit, vals, err := gfEquiv(code, sp)
+			if err != nil {
+				c.Undecided("GF", key, as.Pos(), err.Error())
+			} else if ok2 {
+				c.OK("GF", key, as.Pos(), fmt.Sprintf("selected (through %s) iff %s (%d orderings)", g.Name(), sp.String(), vals))
+			} else {
+				c.Violation("GF", key, as.Pos(), "branch selected under "+code.String()+"; documented criterion is "+sp.String()+": "+wit).Clause = clause
+			}
+			return true
+		})
+	}
+	if n == 0 {
 		c.Undecided("GF", name+"/selection", fi.Decl.Pos(), "no append to the slice passed to RemoveEdges")
 	}
+}
+
+// isFilterHelper: g(pred) ranges over the tree's branches (t.Edges()) and appends the range element to
+// its result exactly when pred(element) returned true (error returns aside).
+func (c *Ctx) isFilterHelper(g *types.Func) bool {
+	gi := c.FuncOfObj(g)
+	if gi == nil || gi.Decl.Body == nil {
+		return false
+	}
+	info := gi.Pkg.TypesInfo
+	pred := paramObj(info, gi.Decl, 0)
+	if pred == nil {
+		return false
+	}
+	if _, isFn := pred.Type().Underlying().(*types.Signature); !isFn {
+		return false
+	}
+	ok := false
+	ast.Inspect(gi.Decl.Body, func(m ast.Node) bool {
+		rs, isRange := m.(*ast.RangeStmt)
+		if !isRange || rs.Value == nil {
+			return true
+		}
+		src := unparen(rs.X)
+		if v := identObj(info, src); v != nil {
+			k, def := 0, ast.Expr(nil)
+			forAssignsTo(info, gi.Decl.Body, v, func(rhs ast.Expr, multi, incdec bool) {
+				k++
+				def = rhs
+			})
+			if k == 1 && def != nil {
+				src = unparen(def)
+			}
+		}
+		if call, isCall := src.(*ast.CallExpr); !isCall || !isRepoFunc(calleeOf(info, call), "tree", "Tree", "Edges") {
+			return true
+		}
+		ev := identObj(info, rs.Value)
+		// flag := pred(ev)
+		var flag types.Object
+		ast.Inspect(rs.Body, func(q ast.Node) bool {
+			if as, isAs := q.(*ast.AssignStmt); isAs && len(as.Rhs) == 1 {
+				if cl, isCl := unparen(as.Rhs[0]).(*ast.CallExpr); isCl && identObj(info, cl.Fun) == pred && len(cl.Args) == 1 && identObj(info, cl.Args[0]) == ev {
+					flag = identObj(info, as.Lhs[0])
+				}
+			}
+			return true
+		})
+		if flag == nil {
+			return true
+		}
+		ast.Inspect(rs.Body, func(q ast.Node) bool {
+			as, isAs := q.(*ast.AssignStmt)
+			if !isAs || len(as.Rhs) != 1 {
+				return true
+			}
+			cl, isCl := unparen(as.Rhs[0]).(*ast.CallExpr)
+			if !isCl || len(cl.Args) != 2 || identObj(info, cl.Args[1]) != ev {
+				return true
+			}
+			if id, isId := unparen(cl.Fun).(*ast.Ident); !isId || id.Name != "append" {
+				return true
+			}
+			conds, okc := c.pathConds(info, rs.Body, as, false)
+			if !okc {
+				return true
+			}
+			var rel []cond
+			for _, cd := range conds {
+				if cd.Expr != nil && errGuard(info, cd.Expr) {
+					continue
+				}
+				rel = append(rel, cd)
+			}
+			code := c.condsToBexpr(info, rel, nil)
+			if eq, _, _, err := gfEquiv(code, bAtom(flag.Name())); err == nil && eq {
+				ok = true
+			}
+			return true
+		})
+		return true
+	})
+	return ok
 }
 
 // errGuard: cond is `err != nil` / `err == nil` on an error value.
